@@ -6,6 +6,7 @@ import (
 	"math/rand"
 	"strings"
 
+	"github.com/orbs-network/lean-helix-go/services/interfaces"
 	"github.com/orbs-network/lean-helix-go/spec/types/go/protocol"
 )
 
@@ -88,8 +89,10 @@ func (w *world) run() {
 				w.pool = append(w.pool[:i], w.pool[i+1:]...)
 				w.rep.count("sched:drop")
 			}
-		case k < 50:
+		case k < 48:
 			w.someSync()
+		case k < 50:
+			w.garbage()
 		case k < 54:
 			w.burstNewestFirst()
 		case k < 76:
@@ -230,6 +233,50 @@ func (w *world) someSync() {
 	}
 	h := hs[w.r.Intn(len(hs))]
 	w.sync(n, w.chain[h])
+}
+
+// garbage: content bytes that do not hold a readable message (C12): truncations and size-word manglings of real
+// traffic, random bytes, the witnesses of finding F7. If the repo's readers happen to read the bytes as a whole
+// message it is delivered as that message; otherwise the model's event is EGarbage (no effect at all).
+func (w *world) garbage() {
+	n := w.honest[w.r.Intn(len(w.honest))]
+	var b []byte
+	switch w.r.Intn(6) {
+	case 0:
+		b = []byte{0, 0, 0, 0, 0xFC, 0xFF, 0xFF, 0xFF}
+	case 1:
+		b = []byte{}
+	case 2:
+		b = make([]byte, w.r.Intn(40))
+		w.r.Read(b)
+	default:
+		if len(w.pool) == 0 {
+			return
+		}
+		src := w.pool[w.r.Intn(len(w.pool))].raw.Content
+		b = append([]byte{}, src...)
+		if w.r.Intn(2) == 0 {
+			b = b[:w.r.Intn(len(b)+1)]
+		} else if len(b) >= 8 {
+			o := 4 * w.r.Intn(len(b)/4)
+			v := []uint32{uint32(len(b)), 1 << 31, ^uint32(0) - 3, ^uint32(0)}[w.r.Intn(4)]
+			b[o], b[o+1], b[o+2], b[o+3] = byte(v), byte(v>>8), byte(v>>16), byte(v>>24)
+		}
+	}
+	raw := &interfaces.ConsensusRawMessage{Content: b}
+	var m *aMsg
+	func() {
+		defer func() { recover() }()
+		m = w.codec.decode(raw)
+	}()
+	if m != nil {
+		w.rep.count("garbage:readable-after-all")
+		w.history = append(w.history, m)
+		w.deliver(n, m, raw)
+		return
+	}
+	w.rep.count("event:garbage")
+	n.apply("EGarbage", fmt.Sprintf("garbage bytes %x", b), evInfo{kind: "garbage"}, func() { n.vn.Deliver(raw) })
 }
 
 // ---- mutation of real traffic, one field at a time (DESIGN Appendix D) ----
